@@ -49,13 +49,14 @@ mut("C12", "crlf-across-refill", ("scanner.go", "\ts.crSeen = (b == 13)\n", "\ts
 # ---- C13
 mut("C13", "no-sticky-error", ("scanner.go", "\tif err != nil {\n\t\ts.err = err\n\t}\n\tif n > 0 {", "\tif err == io.EOF {\n\t\ts.err = err\n\t}\n\tif n > 0 {"))
 mut("C13", "any-error-ends-run", ("interpreter.go", "\t\tif err == io.EOF {\n\t\t\tbreak\n\t\t} else if err != nil {\n\t\t\treturn err\n\t\t}\n\t\terr = intp.executeOne(o, false)", "\t\tif err != nil {\n\t\t\tif _, ok := err.(*postScriptError); ok {\n\t\t\t\treturn err\n\t\t\t}\n\t\t\tbreak\n\t\t}\n\t\terr = intp.executeOne(o, false)"))
-mut("C13", "eexec-swallows-errors", ("eexec.go", "\tif err != nil && err != io.EOF {\n\t\treturn err\n\t}\n\ts.EndEexec()", "\tif _, ok := err.(*postScriptError); ok {\n\t\treturn err\n\t}\n\ts.EndEexec()"))
+mut("C13", "eexec-swallows-errors", ("eexec.go", "\tif err != nil && err != io.EOF {\n\t\treturn err\n\t}\n\ts.EndEexec()", "\tif err != nil && err != io.EOF {\n\t\tif _, ok := err.(*postScriptError); ok {\n\t\t\treturn err\n\t\t}\n\t}\n\ts.EndEexec()"))
 mut("C13", "type1-write-drops-close-error", ("type1/write.go", "\t\terr = we.Close()\n\t\tif err != nil {\n\t\t\treturn err\n\t\t}\n\t\terr = wh.Close()\n\t\tif err != nil {\n\t\t\treturn err\n\t\t}\n", "\t\twe.Close()\n\t\terr = wh.Close()\n\t\tif err != nil {\n\t\t\treturn err\n\t\t}\n"))
 mut("C13", "type1-pfb-header-error-dropped", ("type1/write.go", "\t\t_, err = w.Write([]byte{128, 2, byte(n), byte(n >> 8), byte(n >> 16), byte(n >> 24)})\n\t\tif err != nil {\n\t\t\treturn err\n\t\t}\n", "\t\tw.Write([]byte{128, 2, byte(n), byte(n >> 8), byte(n >> 16), byte(n >> 24)})\n"))
 mut("C13", "hexwriter-flush-error-dropped", ("type1/hex.go", "\t\t\tif err = w.flush(); err != nil {\n\t\t\t\treturn n, err\n\t\t\t}\n", "\t\t\tw.flush()\n"))
 mut("C13", "afm-write-kern-error-dropped", ("afm/write.go", "\t\t\tif err := write(\"KPX %s %s %d\", k.Left, k.Right, k.Adjust); err != nil {\n\t\t\t\treturn err\n\t\t\t}\n", "\t\t\twrite(\"KPX %s %s %d\", k.Left, k.Right, k.Adjust)\n"))
 mut("C13", "afm-read-ignores-scanner-err", ("afm/read.go", "\tif err := scanner.Err(); err != nil {\n\t\treturn nil, err\n\t}\n", ""))
-mut("C13", "definefont-before-charstrings", ("type1/write.go", "ND\n2 index /CharStrings", "ND\n1 index /FontName get 2 index definefont pop\n2 index /CharStrings"))
+mut("C13", "cmap-registered-at-begincmap", ("cmap.go", "\t\tintp.cmapMappings = &CMapInfo{}\n\t\treturn nil\n", "\t\tintp.cmapMappings = &CMapInfo{}\n\t\tif d := intp.DictStack[len(intp.DictStack)-1]; len(intp.DictStack) > 2 {\n\t\t\td[\"CodeMap\"] = intp.cmapMappings\n\t\t\tintp.CMapDirectory[\"(current)\"] = d\n\t\t}\n\t\treturn nil\n"),
+    ("cmap.go", "\t\tdict[\"CodeMap\"] = intp.cmapMappings\n\t\tintp.cmapMappings = nil\n", "\t\tdict[\"CodeMap\"] = intp.cmapMappings\n\t\tdelete(intp.CMapDirectory, \"(current)\")\n\t\tintp.cmapMappings = nil\n"))
 mut("C13", "readstring-swallows-error", ("builtin.go", "\tn, err := s.Read(buf)\n\tif err != nil && err != io.EOF {\n\t\treturn err\n\t}\n", "\tn, _ := s.Read(buf)\n"))
 mut("C13", "pfb-binary-error-swallowed-when-data", ("pfb/reader.go", "\t\t\tif err == io.EOF {\n\t\t\t\t// the segment is shorter than its declared length\n\t\t\t\terr = io.ErrUnexpectedEOF\n\t\t\t}\n\t\t\tif err != nil {\n\t\t\t\treturn n, err\n\t\t\t}\n",
      "\t\t\tif err == io.EOF {\n\t\t\t\t// the segment is shorter than its declared length\n\t\t\t\terr = io.ErrUnexpectedEOF\n\t\t\t}\n\t\t\tif err != nil && (k == 0 || err == io.ErrUnexpectedEOF) {\n\t\t\t\treturn n, err\n\t\t\t}\n"))
@@ -63,7 +64,7 @@ mut("C13", "countingwriter-hides-error", ("type1/write.go", "\tn, err = w.w.Writ
 
 # ---- C14
 mut("C14", "revert-short-binary-fix", ("pfb/reader.go", "\t\t\tif err == io.EOF {\n\t\t\t\t// the segment is shorter than its declared length\n\t\t\t\terr = io.ErrUnexpectedEOF\n\t\t\t}\n", ""))
-mut("C14", "uppercase-hex", ("pfb/reader.go", "\treturn 'a' + b - 10\n", "\treturn 'A' + b - 10\n"))
+mut("C14", "uppercase-parked-nibble", ("pfb/reader.go", "\t\t\t\tr.tail = hexEncode(b[k-1] & 0x0f)\n", "\t\t\t\tr.tail = \"0123456789ABCDEF\"[b[k-1]&0x0f]\n"))
 mut("C14", "drop-parked-nibble-at-segment-end", ("pfb/reader.go", "\t\t\tif r.len == 0 {\n\t\t\t\tr.state = 0\n\t\t\t} else {\n\t\t\t\tr.state = 2\n\t\t\t}\n", "\t\t\tr.state = 2\n"))
 mut("C14", "accept-type-4", ("pfb/reader.go", "buf[1] > 3 {", "buf[1] > 4 {"))
 mut("C14", "half-buffer", ("pfb/reader.go", "\t\t\tk := (len(b) + 1) / 2\n", "\t\t\tk := len(b) / 2\n\t\t\tif k == 0 {\n\t\t\t\tk = 1\n\t\t\t}\n"))
